@@ -209,8 +209,9 @@ def rule_R2(ctx, f):
             acc = None
             if len(was) == 1:
                 acc = [a for a in was[0].args if a[0] == "var"]
-                ents = b.calls_to("HashMap::entry")
-                okid = okid and len(acc) == 1 and len(ents) == 1 and peel(ents[0].args[1]) == acc[0] and peel(ents[0].args[0]) == SELF_FIELD("collectors_by_id")
+                # every access to collectors_by_id in register is keyed by the accumulated id (entry(id), or contains_key(&id) + insert(id, c))
+                ents = [c for c in b.calls_to(["HashMap::entry", "HashMap::contains_key", "HashMap::insert", "HashMap::get"]) if peel(c.args[0]) == SELF_FIELD("collectors_by_id")]
+                okid = okid and len(acc) == 1 and len(ents) >= 1 and all(peel(c.args[1]) == acc[0] for c in ents)
                 if okid:
                     alts = b.var_alts(acc[0][1])
                     okid = any(a == was[0].result_term() for a in alts) and any(a[0] == "const" and a[3] == "0" for a in alts) and len(alts) == 2
@@ -252,21 +253,28 @@ def rule_R3(ctx, f):
     b = f.body(RC + "register")
     if not b:
         return
-    ents = b.calls_to("HashMap::entry")
-    if len(ents) != 1:
-        ctx.ob(rid, "register|entry", False, "one collectors_by_id.entry() expected", site=b.raw["span"]["at"])
-        return
-    si = b.switch_info(ents[0].target)
-    ok = si is not None and si[0][0] == "discr"
+    ents = [c for c in b.calls_to("HashMap::entry") if peel(c.args[0]) == SELF_FIELD("collectors_by_id")]
+    cks = [c for c in b.calls_to("HashMap::contains_key") if peel(c.args[0]) == SELF_FIELD("collectors_by_id")]
     vac = occ = None
-    if ok:
-        # discriminants: Entry::Occupied = 0, Entry::Vacant = 1
-        for v, t in si[1]:
-            if v == 0:
-                occ = t
-            elif v == 1:
-                vac = t
-    ctx.ob(rid, "register|entry-match", vac is not None and occ is not None, "the entry must be matched on Occupied/Vacant", site=ents[0].span)
+    if len(ents) == 1 and not cks:
+        si = b.switch_info(ents[0].target)
+        if si is not None and si[0][0] == "discr":
+            # discriminants: Entry::Occupied = 0, Entry::Vacant = 1
+            for v, t in si[1]:
+                if v == 0:
+                    occ = t
+                elif v == 1:
+                    vac = t
+    elif len(cks) == 1 and not ents:
+        # `if collectors_by_id.contains_key(&id) { return Err(AlreadyReg) }` ... insert(id, c)
+        be = b.bool_edges(cks[0].target) if cks[0].target is not None else None
+        if be and be[0] == cks[0].result_term():
+            occ, vac = be[1], be[2]
+        ents = cks
+    else:
+        ctx.ob(rid, "register|entry", False, "one test of the collector id against collectors_by_id is expected (entry() or contains_key())", site=b.raw["span"]["at"])
+        return
+    ctx.ob(rid, "register|entry-match", vac is not None and occ is not None, "the test must distinguish a registered collector id from a new one", site=ents[0].span)
     if vac is None or occ is None:
         return
     errs = [err_variant(b, x) for x in b.reach(occ) if err_variant(b, x)]
@@ -296,7 +304,7 @@ def rule_R3(ctx, f):
     ctx.ob(rid, "register|commit-ids", ok, "on success desc_ids must receive exactly the local id set (extend, or an unconditional insert of every element) (found %s)" % [show(c.args[1]) if hasattr(c, "args") else c for c in ext],
            site=ext[0].span if ext and hasattr(ext[0], "span") else b.raw["span"]["at"])
     col = by_field.get("collectors_by_id", [])
-    ok = len(col) == 1 and hasattr(col[0], "bb") and col[0].matches("VacantEntry::insert") and b.dominates(vac, col[0].bb) and any(s == P2 for s in subterms(col[0].args[1]))
+    ok = len(col) == 1 and hasattr(col[0], "bb") and col[0].matches(["VacantEntry::insert", "HashMap::insert"]) and b.dominates(vac, col[0].bb) and any(s == P2 for s in subterms(col[0].args[-1]))
     ctx.ob(rid, "register|commit-collector", ok, "on success the collector passed in must be inserted into the vacant entry", site=col[0].span if col and hasattr(col[0], "span") else b.raw["span"]["at"])
     dims = by_field.get("dim_hashes_by_name", [])
     names_local = [peel(c.args[0]) for c in b.calls_to("HashMap::insert") if self_field_of(c.args[0]) is None]
